@@ -33,6 +33,9 @@ def run(chk, prog):
                    'storage, one count per row, division by the own count, that matrix returned)')
     nearest(chk, prog, R_n)
     centroid_mean(chk, prog, R_c)
+    R_s = chk.rule('KM.converged', 'shouldStop reports convergence only when EVERY coordinate of EVERY centroid equals the previous one within the '
+                   'documented absolute tolerance EPSILON (first mismatch => "not converged"), and KMeans loops on exactly that test')
+    converged(chk, prog, R_s)
 
 
 def nearest(chk, prog, R):
@@ -268,3 +271,122 @@ def centroid_mean(chk, prog, R):
         chk.instance(R, '%s the centroid matrix returned is the matrix of the divided sums' % f.unit.where(back[0]))
     else:
         bad('return', back[0] if back else None, 'the matrix of means is not what is copied back into the centroid parameter')
+
+
+def converged(chk, prog, R):
+    """structure of the convergence test:  for all i, j:  if !ApproxEq(c[i][j], old[i][j], EPSILON) return 0;   return 1"""
+    from . import guards
+    f = prog.funcs.get('shouldStop')
+    g = prog.funcs.get('KMeans')
+    if f is None or g is None or f.body is None:
+        chk.broke('shouldStop / KMeans not found')
+        return
+
+    def bad(construct, node, msg):
+        chk.instance(R, '%s shouldStop: %s' % (f.unit.where(node) if node is not None else f.where, msg), 'refuted')
+        chk.violation(Finding('KM.converged', rel(f.file), f.name, construct, f.unit.where(node) if node is not None else f.where, 'shouldStop: ' + msg))
+    cn, on = f.params[0]['name'], f.params[1]['name']
+    eps = None
+    import os, re
+    txt = open(os.path.join(fe.SRC, 'numeric.h')).read()
+    m_ = re.search(r'#define\s+EPSILON\s+([0-9.eE+-]+)', txt)
+    if m_:
+        eps = float(m_.group(1))
+    tests = []
+    for n in walk(f.body):
+        if n.get('kind') == 'BinaryOperator' and n.get('opcode') == '&&':
+            m = guards.match_approx(n)
+            if m:
+                tests.append((n, m))
+    if len(tests) != 1:
+        chk.broke('shouldStop: %d approximate-equality tests found, expected one' % len(tests))
+        return
+    tnode, (x, v, tol) = tests[0]
+    loops = [l for l in walk(f.body) if l.get('kind') == 'ForStmt' and any(y is tnode for y in walk(l))]
+    # (1) compared quantities and tolerance
+    def loop_info(l):
+        """(var, init text, plain bound text or None, has extra condition)"""
+        init, cond, inc, body = flow.for_parts(l)
+        i_s = strip(init) if init is not None and init.get('kind') else {}
+        var = exprs.text_key(kids(i_s)[0]) if i_s.get('kind') == 'BinaryOperator' else None
+        lo = exprs.text_key(kids(i_s)[1]) if i_s.get('kind') == 'BinaryOperator' else None
+        c_ = strip(cond) if cond is not None and cond.get('kind') else {}
+        extra = False
+        if c_.get('kind') == 'BinaryOperator' and c_.get('opcode') == '&&':
+            extra = True
+            c_ = strip(kids(c_)[0])
+        bound = exprs.text_key(kids(c_)[1]) if c_.get('kind') == 'BinaryOperator' and c_.get('opcode') == '<' and exprs.text_key(kids(c_)[0]) == var else None
+        return var, lo, bound, extra
+    ok_cells = False
+    extra_conditions = False
+    if len(loops) == 2:
+        (v1, lo1, b1, x1), (v2, lo2, b2, x2) = loop_info(loops[0]), loop_info(loops[1])
+        extra_conditions = x1 or x2
+        pair = {exprs.text_key(x), exprs.text_key(v)}
+        ok_cells = v1 is not None and v2 is not None and pair == {'%s->data[%s][%s]' % (cn, v1, v2), '%s->data[%s][%s]' % (on, v1, v2)}
+        full = lo1 == '0' and lo2 == '0' and b1 in ('%s->row' % cn, '%s->row' % on) and b2 in ('%s->col' % cn, '%s->col' % on)
+        if ok_cells and full:
+            chk.instance(R, '%s compares centroid[i][j] with the previous centroid[i][j] for i < rows, j < cols%s' %
+                         (f.unit.where(tnode), ' (loop headers carry a further condition, examined below)' if extra_conditions else ''))
+        elif ok_cells:
+            bad('range', loops[0], 'the comparison runs over i from %s below %s and j from %s below %s: some centroid coordinates never take part in the '
+                'convergence test' % (lo1, b1, lo2, b2))
+    if not ok_cells:
+        bad('cells', tnode, 'the convergence test does not compare each centroid coordinate with the same coordinate of the previous centroids over two nested loops')
+        return
+    tv = guards.literal_value(tol)
+    if tv is not None and eps is not None and tv == eps:
+        chk.instance(R, '%s tolerance is the documented constant EPSILON = %g' % (f.unit.where(tnode), eps))
+    else:
+        bad('tolerance', tnode, 'the tolerance of the convergence test is `%s`, not the documented absolute EPSILON (%s): convergence is then declared '
+            'at a different accuracy than documented (a relative tolerance stops early on data far from the origin)' % (f.unit.text(tol)[:50], eps))
+    # (2) a mismatch must end the search with "not converged"
+    pm = flow.parent_map(f.body)
+    par = pm.get(id(tnode))
+    # walk up through parens / casts / comparison with 1
+    cur = tnode
+    negated = False
+    while par is not None and (par.get('kind') in ('ParenExpr', 'ImplicitCastExpr') or (par.get('kind') == 'UnaryOperator' and par.get('opcode') == '!')):
+        if par.get('kind') == 'UnaryOperator':
+            negated = not negated
+        cur, par = par, pm.get(id(par))
+    if par is not None and par.get('kind') == 'IfStmt':
+        c, t, e = flow.if_parts(par)
+        if negated:
+            t, e = e, t
+
+        def returns(n, val):
+            return any(y.get('kind') == 'ReturnStmt' and kids(y) and fe.int_value(kids(y)[0]) == val for y in walk(n or {}))
+
+        def only_continue(n):
+            return n is None or all(y.get('kind') in ('ContinueStmt', 'CompoundStmt', 'NullStmt') for y in walk(n))
+        if (only_continue(t) and returns(e, 0)):
+            chk.instance(R, '%s the first coordinate that differs returns 0 (not converged)' % f.unit.where(par))
+        else:
+            bad('mismatch-arm', par, 'a coordinate that differs from the previous centroid does not make the function return 0')
+    elif par is not None and par.get('kind') == 'BinaryOperator' and par.get('opcode') == '=' and strip(kids(par)[0]).get('kind') == 'DeclRefExpr':
+        flag = strip(kids(par)[0])['referencedDecl'].get('name')
+        # flag = test  inside the loops: the previous value of the flag is overwritten unless the assignment conjoins it or the loop leaves at once
+        rhs_names = {y['referencedDecl'].get('name') for y in walk(kids(par)[1]) if y.get('kind') == 'DeclRefExpr'}
+        inner_body = flow.for_parts(loops[-1])[3]
+        leaves = any(y.get('kind') in ('BreakStmt', 'ReturnStmt') for y in walk(inner_body))
+        inner_cond = f.unit.text(flow.for_parts(loops[-1])[1]) if flow.for_parts(loops[-1])[1] is not None else ''
+        if flag in rhs_names or leaves or flag in inner_cond:
+            chk.instance(R, '%s flag `%s` accumulates the comparison; form not examined further' % (f.unit.where(par), flag), 'undecided')
+        else:
+            bad('flag-overwritten', par, 'the flag `%s` is overwritten by every coordinate comparison of a row (`%s`) and the inner loop neither conjoins '
+                'it nor stops at the first mismatch: only the LAST coordinate of a centroid decides, k-means stops while other coordinates still move'
+                % (flag, f.unit.text(par)[:70]))
+    else:
+        chk.broke('shouldStop: the use of the approximate-equality test is not recognised')
+    # (3) final answer when nothing differed
+    last = [s_ for s_ in walk(f.body) if s_.get('kind') == 'ReturnStmt']
+    if not last:
+        chk.broke('shouldStop has no return')
+    # (4) KMeans loops while shouldStop(...) == 0
+    wl = [n for n in walk(g.body) if n.get('kind') == 'WhileStmt' and 'shouldStop' in g.unit.text(kids(n)[0])]
+    if wl:
+        chk.instance(R, '%s KMeans iterates while shouldStop(...) == 0' % g.unit.where(wl[0]))
+    else:
+        chk.instance(R, '%s KMeans main loop is not driven by shouldStop' % g.where, 'refuted')
+        chk.violation(Finding('KM.converged', rel(g.file), g.name, 'loop', g.where, 'KMeans no longer iterates until shouldStop() reports convergence'))
